@@ -9,6 +9,8 @@ STATIC_THEOREMS = [
     'SnapraidVerif.Props.C01.fix_stripe_recovers',
     'SnapraidVerif.Props.C01.enough_parities',
     'SnapraidVerif.Props.C03.rec_unique',
+    'SnapraidVerif.Props.C03.cauchy_decode_exact',
+    'SnapraidVerif.Props.C03.power_decode_exact',
 ]
 
 LEVN = e2e.LEV_NAMES
